@@ -239,14 +239,22 @@ fn op_case(src: Src, len: usize, op: Op) -> J {
     }
 }
 
-/// None when the case is outside the domain of the statement (slice with left < -len)
+/// None when the case is outside the domain of the statement (slice with left < -len) and did not panic
 fn check_op(src: Src, len: usize, op: Op) -> Option<Option<Fail>> {
     let items = base_items(src, len);
     let (want, label, class) = match op {
         Op::Drop(n) => (ref_drop(&items, n), format!("drop({})", n), format!("drop n{}", sign(n))),
         Op::Slice(l, r) => {
             if l < -(len as isize) {
-                return None;
+                // outside the precondition the value is not judged - but "none of these panics" has no precondition
+                return match apply(src, len, op) {
+                    Err(msg) => Some(Some((
+                        "slice left-below-minus-len panic".to_string(),
+                        format!("{} of {} items {:?} .slice({}, {}) panicked: {}", src.name(), len, items, l, r, msg),
+                        op_case(src, len, op),
+                    ))),
+                    Ok(_) => None,
+                };
             }
             (ref_slice(&items, l, r), format!("slice({}, {})", l, r), format!("slice {} {}", right_class(r, len), left_class(l, len)))
         },
@@ -1295,7 +1303,7 @@ pub fn run(ctx: &Ctx) -> i32 {
                     match check_op(src, len, Op::Slice(l, r)) {
                         None => skipped_precondition += 1,
                         Some(res) => {
-                            let want = ref_slice(&base_items(src, len), l, r);
+                            let want = if l >= -(len as isize) { ref_slice(&base_items(src, len), l, r) } else { vec![] };
                             pa.add(1, (!want.is_empty() && want.len() < len) as u64);
                             if let Some(f) = res {
                                 report(f);
@@ -1331,7 +1339,7 @@ pub fn run(ctx: &Ctx) -> i32 {
         }
     }
     bounds.push(format!(
-        "(a) drop/slice: lengths 0..={} x n / (left,right) in -{}..={} plus the edges of isize (MAX, MAX-1, MIN, MIN+1) x 4 iterator kinds; slice pairs with left < -len skipped ({} pairs)",
+        "(a) drop/slice: lengths 0..={} x n / (left,right) in -{}..={} plus the edges of isize (MAX, MAX-1, MIN, MIN+1) x 4 iterator kinds; slice pairs with left < -len: executed, only a panic is reported ({} pairs)",
         max_len, ix, ix, skipped_precondition
     ));
     for (src, len, op) in [(Src::VecInto, 4usize, Op::Slice(1, -2)), (Src::CompAbs, 3, Op::Drop(-1)), (Src::SliceIter, 2, Op::Slice(0, 0)), (Src::CompRel, 5, Op::Slice(-3, 9))] {
@@ -1628,7 +1636,7 @@ pub fn run(ctx: &Ctx) -> i32 {
         level: "exploration",
         coverage: cov,
         assumptions: vec![
-            "slice(left, right) is only judged for left >= -len (the statement's precondition); such pairs are not executed at all".into(),
+            "the value of slice(left, right) is only judged for left >= -len (the statement's precondition); pairs outside it are executed and only a panic is reported".into(),
             "error variants are only judged where the variant's own doc comment contradicts the situation (ItemNotFound on a non-empty sequence, MultipleItemsFound on fewer than two items)".into(),
             "path helpers first/last on the empty path: only 'no panic' is required (docs are silent)".into(),
             "defer: a scope is a Rust block in its own function frame; an early return propagates through enclosing scopes like `?`; panics are caught outside the outermost scope".into(),
@@ -1659,7 +1667,7 @@ fn replay(ctx: &Ctx, file: &std::path::Path) -> i32 {
             match op {
                 Op::Drop(n) => println!("  expected : {:?}", ref_drop(&items, n)),
                 Op::Slice(l, r) if l >= -(len as isize) => println!("  expected : {:?}", ref_slice(&items, l, r)),
-                _ => println!("  expected : (outside the precondition left >= -len, not judged)"),
+                _ => println!("  expected : (outside the precondition left >= -len: the value is not judged, a panic is still a violation)"),
             }
             if let Some(Some(f)) = check_op(src, len, op) {
                 fails.push(f);
